@@ -16,6 +16,47 @@ def _git_head(path):
         return ""
 
 
+def anchor_coverage(pid, t, repo):
+    """Per anchored mechanism of the property: executable lines vs. lines executed by this run."""
+    import re
+
+    if not t.lines:
+        return {}
+    try:
+        import coverage
+
+        cov = coverage.Coverage(data_file=None, config_file=False)
+        prop = [json.loads(l) for l in open(os.path.join(HERE, "properties.jsonl")) if json.loads(l)["id"] == pid][0]
+    except Exception:
+        return {}
+    stm_cache = {}
+
+    def statements(rel):
+        if rel not in stm_cache:
+            try:
+                stm_cache[rel] = set(cov.analysis2(os.path.join(repo, rel))[1])
+            except Exception:
+                stm_cache[rel] = None
+        return stm_cache[rel]
+
+    out = {}
+    for m in prop["anchors"]["mechanism"]:
+        for part in m["where"].split(","):
+            mm = re.match(r"\s*([\w/\.]+\.py)(?::(\d+)-(\d+))?", part)
+            if not mm:
+                continue
+            rel, a, b = mm.group(1), mm.group(2), mm.group(3)
+            st = statements(rel)
+            if st is None:
+                continue
+            if a:
+                st = {x for x in st if int(a) <= x <= int(b)}
+            ex = st & t.lines.get(rel, set())
+            miss = sorted(st - ex)
+            out[f"{m['name']} [{part.strip()}]"] = dict(statements=len(st), executed=len(ex), missing_lines=miss[:60])
+    return out
+
+
 def write_evidence(h, pid, tier, seed, t, wall, n_viol, known_hits, errors, repo, n_units):
     samples = list(t.samples)
     if seed and samples:
@@ -45,6 +86,7 @@ def write_evidence(h, pid, tier, seed, t, wall, n_viol, known_hits, errors, repo
         repo=repo,
         repo_head=_git_head(repo),
         notes=t.notes,
+        anchored_code_line_coverage=anchor_coverage(pid, t, repo),
     )
     ev = dict(
         property_id=pid,
